@@ -21,8 +21,9 @@ class C13(Prop):
     def gen(self, rng, i, tier):
         c = netgen.hand_network(rng) if rng.random() < 0.6 else netgen.generated_network(rng)
         c["calls"] = rng.randint(1, 4)
-        if rng.random() < 0.3:
-            c["jd_type"] = "list"
+        r = rng.random()
+        if r < 0.45:
+            c["jd_type"] = "list" if r < 0.3 else "numpy"
         if rng.random() < 0.4:
             c["node_order"] = [v for v, _ in c["jd"]]
             rng.shuffle(c["node_order"])          # a vertex's label is not its position in G.nodes()
